@@ -33,7 +33,7 @@ from ..engine.resolver import FuncNode, Program, walk_no_nested
 from ..engine.sympath import SymUnsupported, sym_block
 from ..engine.util import find_calls, method_call, u
 from ._c17_util import (FIELDS, GROUP, Side, agg_term, availability, bind_target, elem_of, nonempty_test, fold_loops, index_fields, is_name,
-                        loop_passes, name, prepared, record_fields, returns_of, seg, set_elem, simple_call, splice, strip_doc)
+                        loop_passes, name, prepared, project_records, record_fields, returns_of, seg, set_elem, simple_call, splice, strip_doc)
 
 MC = "timeseries.battery_pool._metric_calculator"
 BMM = "microgrid._power_distributing._component_managers._battery_manager"
@@ -117,7 +117,9 @@ def advertised(prog: Program) -> dict[str, Any]:
                 return FIELDS[e.attr]
         return None
 
-    side = Side(groups_ok=lambda _r: True, norm=lambda e: e, leaf_bat=leaf_bat, leaf_inv=leaf_inv)
+    records = {"PowerBounds": record_fields(prog, RESULT_MOD, "PowerBounds")}
+    side = Side(groups_ok=lambda _r: True, norm=lambda e: project_records(e, records), leaf_bat=leaf_bat,
+                leaf_inv=leaf_inv)
     per_return: list[dict[str, Any]] = []
     guards: list[Any] = []
     wiring_ok = True
@@ -181,7 +183,9 @@ def enforced(prog: Program) -> dict[str, Any]:
             return INV_ATTR[e.attr]
         return None
 
-    side = Side(groups_ok=lambda r: is_name(r, pairs), norm=lambda e: index_fields(e, GROUP, pair_fields),
+    records = {"PowerBounds": pb_fields}
+    side = Side(groups_ok=lambda r: is_name(r, pairs),
+                norm=lambda e: index_fields(project_records(e, records), GROUP, pair_fields),
                 leaf_bat=leaf_bat, leaf_inv=leaf_inv)
     per_return = []
     for p in returns_of(node, fn.qual):
